@@ -76,7 +76,7 @@ def run_estimates(el, feed, call, client=None, want_client=False, shared_model_p
             percent_reporting_threshold=call["percent_reporting_threshold"],
             geographic_unit_type=el.geo_type,
             **({} if inputs_from_storage else dict(raw_config=copy.deepcopy(el.config),
-                                                    preprocessed_data=el.pre.copy(deep=True))),
+                                                    preprocessed_data=baseline_argument(el))),
             **({} if call["model_parameters"] is OMIT else dict(model_parameters=call["model_parameters"])),
             **kwargs,
         )
@@ -86,6 +86,13 @@ def run_estimates(el, feed, call, client=None, want_client=False, shared_model_p
     if want_client:
         return res, exc, client
     return res, exc
+
+
+def baseline_argument(el):
+    """The baseline file handed to the client: el.pre, or the larger file it was cut from (rows of states the config
+    does not name for this office), if the case has one."""
+    f = getattr(el, "pre_file", None)
+    return (f if f is not None else el.pre).copy(deep=True)
 
 
 def feed_argument(feed, call):
@@ -127,7 +134,7 @@ def run_estimates_shared(el, feed, call, client, objs):
 
 def shared_objects(el, feed, call):
     c = copy.deepcopy(call)
-    return dict(feed=feed.copy(deep=True), config=copy.deepcopy(el.config), pre=el.pre.copy(deep=True),
+    return dict(feed=feed.copy(deep=True), config=copy.deepcopy(el.config), pre=baseline_argument(el),
                 model_parameters=c["model_parameters"], estimands=c["estimands"],
                 prediction_intervals=c["prediction_intervals"], aggregates=c["aggregates"], features=c["features"],
                 fixed_effects=c["fixed_effects"], save_output=c["save_output"])
